@@ -307,7 +307,11 @@ func (f *classFuncObject) export(*objectExportCtx) interface{} {
 
 func (f *classFuncObject) createInstance(args []Value, newTarget *Object) (instance *Object) {
 	if f.derived {
-		if ctor := f.prototype.self.assertConstructor(); ctor != nil {
+		var ctor func(args []Value, newTarget *Object) *Object
+		if f.prototype != nil {
+			ctor = f.prototype.self.assertConstructor()
+		}
+		if ctor != nil {
 			instance = ctor(args, newTarget)
 		} else {
 			panic(f.val.runtime.NewTypeError("Super constructor is not a constructor"))
